@@ -337,6 +337,9 @@ def _provenance(col, prog, crate, R):
     writers = _priority_writers(prog, R)
     if not writers:
         raise Anchor("no construction of TreapNode found")
+    # a hand-written Clone that is verified to copy field by field hands on priorities that were drawn once, like the derive
+    clone_ok = util.structural_clone_bodies(crate, util.need_adt(crate, "TreapNode"))
+    writers = [w for w in writers if w[0].key not in clone_ok]
     may = util.allowed_writers(crate, {R.new.name}, getattr(R, "helpers", []))
     if not any(w[0].key == R.new.key for w in writers) and any(w[0].name in may and w[3] == "aggregate" for w in writers):
         # the node is built by a private constructor helper that new forwards to: new is judged with it inlined
